@@ -601,6 +601,7 @@ fn replay_json(set: &Set, entry: usize, run: &Run, real: &str, model: &str, stag
     one.runs = vec![run.clone()];
     serde_json::json!({
         "property": PROPERTY,
+        "harness_bin": "cvm",
         "detail": {"stage": stage},
         "case": one.to_json(),
         "real": show(real),
@@ -612,7 +613,33 @@ fn replay_json(set: &Set, entry: usize, run: &Run, real: &str, model: &str, stag
 fn run_replay(path: &str, exe: &std::path::Path) {
     let text = std::fs::read_to_string(path).expect("replay file");
     let j: serde_json::Value = serde_json::from_str(&text).expect("replay json");
-    let set = Set::from_json(&j["case"]);
+    // the replay object itself, or the file check.py wraps it in (a violation: under "replay";
+    // a correspondence that no longer checks: under "no_longer_checks"[i]."case")
+    let mut cases: Vec<&serde_json::Value> = Vec::new();
+    if j["case"].is_object() {
+        cases.push(&j["case"]);
+    }
+    if j["replay"]["case"].is_object() {
+        cases.push(&j["replay"]["case"]);
+    }
+    if let Some(l) = j["no_longer_checks"].as_array() {
+        for x in l {
+            if x["case"]["case"].is_object() {
+                cases.push(&x["case"]["case"]);
+            }
+        }
+    }
+    if cases.is_empty() {
+        println!("no cvm case in {path}");
+        return;
+    }
+    for case in cases {
+        replay_case(case, exe);
+    }
+}
+
+fn replay_case(case: &serde_json::Value, exe: &std::path::Path) {
+    let set = Set::from_json(case);
     for (n, s) in &set.templates {
         println!("template {n:?}: {s}");
     }
@@ -653,8 +680,8 @@ fn main() {
     // ---- cases
     let mut ev_hist = BTreeMap::new();
     let mut sets = fixed_sets(&mut rng, env.budget(8, 40));
-    sets.extend(bcgen_sets(&mut rng, env.budget(3, 10), env.budget(600, 6000), env.budget(3, 8), env.budget(4, 12)));
-    sets.extend(evgen_sets(&mut rng, env.budget(3000, 40000), env.budget(3, 6), &mut ev_hist));
+    sets.extend(bcgen_sets(&mut rng, env.budget(5, 30), env.budget(1500, 30000), env.budget(3, 8), env.budget(4, 12)));
+    sets.extend(evgen_sets(&mut rng, env.budget(8000, 200000), env.budget(3, 6), &mut ev_hist));
     for s in &sets {
         report.count(&format!("sets.{}", s.stream.split('.').take(2).collect::<Vec<_>>().join(".")));
     }
